@@ -101,6 +101,17 @@ def pat(k, t):
         return str(k % 2)
     bits = t.bf if t.bf is not None else initgen.BITS[n]
     signed = not n.startswith("unsigned") and n != "_Bool"
+    if k % 4 == 1 and bits > 8:
+        # a value that uses every byte of the type: a truncated or wrongly extended transfer shows
+        h = (k * 0x9E3779B97F4A7C15 + 0x0123456789ABCDEF) & ((1 << 64) - 1)
+        v = h >> (64 - bits)
+        if signed:
+            v -= 1 << (bits - 1)
+            if v == -(1 << (bits - 1)):
+                v += 1
+        elif bits >= 32:
+            v |= 1 << (bits - 1)
+        return "%d%s" % (v, ("" if signed else "u") + ("l" if bits > 32 else ""))
     v = (k * 37 + 11)
     if signed:
         lim = 1 << (min(bits, 31) - 1) if bits > 1 else 1
@@ -135,8 +146,29 @@ def signatures(draw):
     vargs = []
     if variadic:
         for _ in range(draw(st.integers(1, 14))):
-            vargs.append(draw(st.sampled_from(["int", "long", "double", "void *", "unsigned", "unsigned long"])))
+            vargs.append(draw(st.sampled_from(VARG_KINDS)))
     return build(g.defs, params, ret, vargs, draw(st.sampled_from([0, 0, 1, 2, 2, 3])))
+
+
+# variable arguments: (spelling of the argument's type, type named in va_arg).  Where the two differ the default argument
+# promotions (6.5.2.2p6) stand between caller and callee: narrow integers, _Bool and bit-fields to int, float to double,
+# enumerated types to their promoted compatible type (64-bit ones stay 64-bit).
+VARG_DEFS = ("enum vew { VEW0, VEWBIG = 0x100000000 }; enum ven { VENNEG = -0x100000000, VEN1 = 1 }; enum ves { VES0, VES1 = 200 }; enum vei { VEIM = -1, VEI1 = 1 };\n"
+             "struct vbf { int a : 5; unsigned b : 7; unsigned c : 32; _Bool d : 1; };\n")
+VARG_KINDS = ["int", "long", "double", "void *", "unsigned", "unsigned long", "long long", "unsigned long long",
+              ("float", "double"), ("char", "int"), ("signed char", "int"), ("unsigned char", "int"), ("short", "int"), ("unsigned short", "int"), ("_Bool", "int"),
+              ("enum vew", "enum vew"), ("enum ven", "enum ven"), ("enum ves", "enum ves"), ("enum vei", "enum vei"), ("@VEWBIG", "long"), ("@VENNEG", "long"), ("@VES1", "int"),
+              ("@vb.a", "int"), ("@vb.b", "int"), ("@vb.c", "unsigned"), ("@vb.d", "int")]
+ENUM_AS = {"enum vew": "unsigned long", "enum ven": "long", "enum ves": "unsigned", "enum vei": "int"}
+
+
+def varg(vk, j):
+    """-> (argument expression, va_arg type, T for the check)"""
+    src, va = (vk, vk) if isinstance(vk, str) else vk
+    if src.startswith("@"):
+        return src[1:], va, initgen.T("scalar", va)
+    vt = ENUM_AS.get(src, src)
+    return "(%s)%s" % (src, pat(500 + j, initgen.T("scalar", vt))), va, initgen.T("scalar", ENUM_AS.get(va, va))
 
 
 def sizeof_ok(t):
@@ -144,7 +176,7 @@ def sizeof_ok(t):
 
 
 def build(defs, params, ret, vargs, callform=0):
-    header = PROLOGUE + "extern long anchor[8];\n" + "\n".join(defs) + "\n"
+    header = PROLOGUE + "extern long anchor[8];\n" + (VARG_DEFS if vargs else "") + "\n".join(defs) + "\n"
     rdecl = ret.decl("") .strip() if ret is not None else "void"
     plist = [p.decl("a%d" % i) for i, p in enumerate(params)]
     if vargs:
@@ -158,9 +190,9 @@ def build(defs, params, ret, vargs, callform=0):
             body.append("\t" + chk(path, lt))
     if vargs:
         body.append("\t__builtin_va_list ap; __builtin_va_start(ap, a%d);" % (len(params) - 1))
-        for vt in vargs:
-            t = initgen.T("scalar", vt)
-            body.append("\t{ %s v = __builtin_va_arg(ap, %s); %s }" % (vt, vt, chk("v", t)))
+        for j, vk in enumerate(vargs):
+            _, va, t = varg(vk, j)
+            body.append("\t{ %s v = __builtin_va_arg(ap, %s); %s }" % (va, va, chk("v", t)))
         body.append("\t__builtin_va_end(ap);")
     if ret is not None:
         body.append("\t%s%s;" % (ret.decl("r"), " = { 0 }" if ret.kind != "scalar" else ""))
@@ -177,9 +209,10 @@ def build(defs, params, ret, vargs, callform=0):
             cb.append("\t%s = %s;" % (path, pat(kk, lt)))
             kk += 1
     args = ["a%d" % i for i in range(len(params))]
-    for j, vt in enumerate(vargs):
-        t = initgen.T("scalar", vt)
-        args.append("(%s)%s" % (vt, pat(500 + j, t)))
+    if vargs:
+        cb.append("\tstruct vbf vb = { -3, 100, 0xfedcba98u, 1 };")
+    for j, vk in enumerate(vargs):
+        args.append(varg(vk, j)[0])
     # how the caller names the function: directly, through a pointer, or through a callee expression that itself contains calls
     # with arguments (a selector returning the function pointer, an indexed table)
     pre = ""
